@@ -48,10 +48,9 @@ Definition cell_mean (f c : arr) (k : Z) : Q := inject_Z (f k) / inject_Z (c k).
 (** * the whole Filterbank.fold call, starting from the vector [raw] that get_dmdelays returns (entries of either sign:
     descending or ascending band, positive or negative DM): chan_delays = raw shifted by the regenerated [fold_delay_of]
     with dmin = raw.min(), max_delay = int(chan_delays.max()) (the translator accepts exactly this statement order) *)
-Fixpoint vmin (n : nat) (v : arr) : Z := match n with O => v 0 | S m => Z.min (vmin m v) (v (Z.of_nat m)) end.
-Fixpoint vmax (n : nat) (v : arr) : Z := match n with O => v 0 | S m => Z.max (vmax m v) (v (Z.of_nat m)) end.
-Definition call_delays (nch : Z) (raw : arr) : arr := fun c => fold_delay_of (vmin (Z.to_nat nch) raw) (raw c).
-Definition call_md (nch : Z) (raw : arr) : Z := vmax (Z.to_nat nch) (call_delays nch raw).
+(* vmin / vmax: Model.C11_rt; the shift (fold_chan_delays, with dmin = fold_dmin) and max_delay (fold_max_delay) are regenerated *)
+Definition call_delays (nch : Z) (raw : arr) : arr := fold_chan_delays nch raw.
+Definition call_md (nch : Z) (raw : arr) : Z := fold_max_delay nch (call_delays nch raw).
 Definition fold_call (fs : list file) (nch gulp start nsamps nn : Z) (raw : arr) (tsamp period accel : Q)
     (nbins nints nbands : Z) : option (arr * arr) :=
   fold_pipe fs nch gulp start nsamps nn (call_md nch raw) (call_delays nch raw) tsamp period accel nbins nints nbands.
